@@ -68,16 +68,26 @@ def _emitted(fa: FA):
         if r.value is None or not fa.nodes(r):
             continue
         at = fa.nodes(r)[0]
-        for (alt, a_) in alternatives(fa, r.value, at):
+        todo = list(alternatives(fa, r.value, at))
+        budget = 40
+        while todo:
+            budget -= 1
+            if budget < 0:
+                return None
+            (alt, a_) = todo.pop()
             items = _dict_items(alt)
             if items is None:
                 if A.is_none(alt):
                     continue
                 return None
-            if any(k is None for k, _ in items):
-                return None
             found = True
-            for k, v in items:
+            for i, (k, v) in enumerate(items):
+                if k is None:
+                    # {**base, 'k': v}: the entries of the spliced dict(s) are emitted too
+                    if isinstance(alt, ast.Dict) and alt.keys[i] is None:
+                        todo += alternatives(fa, v, a_)
+                        continue
+                    return None
                 out.setdefault(k, []).append((v, a_))
         if isinstance(r.value, ast.Name):
             for st in fa.stmts(ast.Assign):
